@@ -7,4 +7,5 @@ INVARIANT FormulationsAgree
 INVARIANT SwapSym
 INVARIANT InRange
 INVARIANT PerfectWhenSame
+INVARIANT RelabelInv
 INVARIANT Export
